@@ -149,6 +149,7 @@ def make_grammar(sw, control_names, utf8=False):
     g["uint"] = A(C(DIGIT1, Rep(DIGIT)), C(L("0x"), Rep(HEXDIG, 1)), C(L("0b"), Rep(BINDIG, 1)), L("0"))
     g["decuint"] = A(C(DIGIT1, Rep(DIGIT)), L("0"))
     g["int"] = C(Opt(L("-")), N("uint"))
+    g["negint"] = C(L("-"), N("uint"))  # what the crate's int_value rule is meant to cover
     g["exponent"] = C(Opt(A(L("+"), L("-"))), Rep(DIGIT, 1))
     g["hexfloat"] = C(Opt(L("-")), L("0x"), Rep(HEXDIG, 1), Opt(C(L("."), Rep(HEXDIG, 1))), L("p"), N("exponent"))
     mant = N("int") if on("DC_radix_mantissa") else C(Opt(L("-")), N("decuint"))
